@@ -346,7 +346,8 @@ class FileInfo(os.PathLike):
         times = []
         for i in range(2):
             if json_dict["times"][i] is None:
-                times.append([None])
+                raise ValueError(
+                    f"The time coverage of '{json_dict['path']}' is missing!")
             else:
                 times.append(
                     datetime.strptime(
